@@ -238,7 +238,9 @@ pub fn build_table_from_data(
             max_symbol = idx;
         }
     }
-    build_table_from_counts(&counts[..=max_symbol], max_log, avoid_0_numbit)
+    // Always include at least two symbols. If the only symbol is 0, the zero-bit avoidance
+    // in build_table_from_counts has no second symbol to move probability to otherwise.
+    build_table_from_counts(&counts[..=max_symbol.max(1)], max_log, avoid_0_numbit)
 }
 
 fn build_table_from_counts(counts: &[usize], max_log: u8, avoid_0_numbit: bool) -> FSETable {
